@@ -16,8 +16,8 @@
 #ifndef COMMENT
 #define COMMENT "#"
 #endif
-#ifndef OPTS
-#define OPTS ""
+#ifndef OPTMODE
+#define OPTMODE 0       /* 0 default, 1 JOIN_SAME_ENTRIES, 2 PYTHON_STYLE */
 #endif
 #define NIN (PB + 1)
 #define VERIF_MAIN
@@ -44,6 +44,40 @@ static void list_keys(econf_file *ef, const char *grp) {
   }
   econf_freeArray(keys);
 }
+/* representation invariant I of a parsed object: what the query/merge/write harnesses (S-step, M, W)
+   assume about their arbitrary pre-states; established here for every byte string */
+static void check_invariant(econf_file *ef) {
+  CHECK(ef->length <= MAXE && ef->alloc_length >= ef->length, "I: entry counts consistent");
+  CHECK(ef->group_count >= 0 && ef->group_count <= MAXE + 1, "I: section count bounded by the number of lines");
+  for (size_t i = 0; i < MAXE; i++) {
+    if (i >= ef->length) break;
+    const struct file_entry *fe = &ef->file_entry[i];
+    CHECK(fe->group != NULL && getFromGroupList(ef, fe->group) == fe->group, "I: entry's section string is owned by the object's section list");
+    CHECK(fe->key != NULL && fe->key[0] != 0, "I: key is a non-empty string");
+    CHECK(fe->line_number >= 1 && fe->line_number <= MAXE, "I: line number within the file");
+    if (fe->value) (void)strlen(fe->value);
+    if (fe->comment_before_key) (void)strlen(fe->comment_before_key);
+    if (fe->comment_after_value) (void)strlen(fe->comment_after_value);
+  }
+  for (int g = 0; g < MAXE + 1; g++) { if (g >= ef->group_count) break; CHECK(ef->groups[g] != NULL && ef->groups[g][0] != 0, "I: section names are non-empty strings"); }
+  if (ef->group_count > 0) CHECK(ef->groups[ef->group_count] == NULL, "I: section list NULL-terminated");
+  CHECK(ef->path != NULL, "I: path recorded");
+}
+static void follow_getters(econf_file *ef) {
+  /* every typed, defaulted and extended getter on the first and the last listed key */
+  for (int which = 0; which < 2; which++) {
+    if (ef->length == 0) break;
+    const struct file_entry *fe = &ef->file_entry[which ? ef->length - 1 : 0];
+    const char *g = strcmp(fe->group, KEY_FILE_NULL_VALUE) ? fe->group : NULL, *k = fe->key;
+    int32_t i32; int64_t i64; uint32_t u32; uint64_t u64; float fl; double db; bool bo; char *st = NULL;
+    econf_getIntValue(ef, g, k, &i32); econf_getInt64Value(ef, g, k, &i64); econf_getUIntValue(ef, g, k, &u32); econf_getUInt64Value(ef, g, k, &u64);
+    econf_getFloatValue(ef, g, k, &fl); econf_getDoubleValue(ef, g, k, &db); econf_getBoolValue(ef, g, k, &bo);
+    if (econf_getStringValue(ef, g, k, &st) == ECONF_SUCCESS) free(st);
+    econf_getIntValueDef(ef, g, k, &i32, 1); econf_getBoolValueDef(ef, g, k, &bo, true);
+    econf_ext_value *x = NULL;
+    if (econf_getExtValue(ef, g, k, &x) == ECONF_SUCCESS) econf_freeExtValue(x);
+  }
+}
 static void follow_list(econf_file *ef) {
   char **groups = NULL; size_t gc = 0;
   if (econf_getGroups(ef, &gc, &groups) == ECONF_SUCCESS) {
@@ -55,6 +89,24 @@ static void follow_list(econf_file *ef) {
 }
 
 void harness(void) {
+#ifdef RAWTPL
+  /* line structure concrete (RAWTPL: '.' = any byte except NL, 'N' = NL), bytes symbolic: every
+     byte string has exactly one such structure, so the union over all structures of a length is
+     the set of all byte strings of that length */
+  static const char tpl[] = RAWTPL;
+  const size_t L = sizeof(tpl) - 1;
+  char data[sizeof(tpl)];
+  static short ends[sizeof(tpl) + 1]; int nends = 0;
+  for (size_t i = 0; i < L; i++) {
+    if (tpl[i] == 'N') { data[i] = '\n'; ends[nends++] = (short)(i + 1); }
+    else { data[i] = (char)IN8(1 + i); ASSUME(data[i] != '\n'); }
+  }
+  if (L > 0 && tpl[L - 1] != 'N') ends[nends++] = (short)L;
+  int f = vfs_add("/f", -1, VK_FILE);
+  vfs_set(f, data, L);
+  vfs_set_lines(f, ends, nends);
+  vfs_commit();
+#else
   size_t L = IN8(0);
   ASSUME(L <= PB);
   char data[PB + 1];
@@ -64,10 +116,17 @@ void harness(void) {
   int f = vfs_add("/f", -1, VK_FILE);
   vfs_set(f, data, L);
   vfs_commit();
+#endif
 
   econf_file *ef = NULL;
-  econf_err e = econf_newKeyFile_with_options(&ef, OPTS);
+  econf_err e = econf_newKeyFile_with_options(&ef, "");
   ASSUME(e == ECONF_SUCCESS && ef != NULL);
+  /* parsing options set directly (the option-string tokenizer is C15's subject) */
+#if OPTMODE == 1
+  ef->join_same_entries = true;
+#elif OPTMODE == 2
+  ef->python_style = true;
+#endif
   e = read_file_with_callback(&ef, VP("/f"), DELIM, COMMENT, NULL, NULL);
   CHECK(documented(e), "read returns success or a documented parse error");
   if (e != ECONF_SUCCESS) {
@@ -79,6 +138,35 @@ void harness(void) {
 #ifdef FOLLOW_LIST
   follow_list(ef);
 #endif
+#ifdef FOLLOW_GETTERS
+  follow_getters(ef);
+#endif
+#ifdef FOLLOW_MERGE
+  {
+    econf_file *m1 = NULL, *m2 = NULL, *other = NULL;
+    ASSUME(econf_newKeyFile(&other, '=', '#') == ECONF_SUCCESS);
+    CHECK(econf_setStringValue(other, "s", "k", "v") == ECONF_SUCCESS, "other object");
+    CHECK(econf_mergeFiles(&m1, ef, ef) == ECONF_SUCCESS, "merge with itself");
+    CHECK(econf_mergeFiles(&m2, other, ef) == ECONF_SUCCESS, "merge as override");
+    econf_freeFile(m1); econf_freeFile(m2);
+    CHECK(econf_mergeFiles(&m1, ef, other) == ECONF_SUCCESS, "merge as base");
+    econf_freeFile(m1); econf_freeFile(other);
+  }
+#endif
+#ifdef FOLLOW_WRITE
+  {
+    int od = vfs_add("/o", -1, VK_DIR); int of = vfs_add("/o/w", od, VK_ABSENT);
+    NATIVE_ONLY(vfs_commit();)
+    econf_err w = econf_writeFile(ef, VP("/o"), "w");
+    CHECK(w == ECONF_SUCCESS, "writing the parsed object succeeds");
+    econf_file *back = NULL;
+    econf_err r = econf_readFile(&back, VP("/o/w"), DELIM, COMMENT);
+    CHECK(r == ECONF_SUCCESS || (back == NULL && documented(r)), "reading the written file back: success or a documented error");
+    if (back) econf_freeFile(back);
+    (void)of;
+  }
+#endif
+  check_invariant(ef);
   if (ef->length > 0) REACH("at least one entry parsed");
   econf_freeFile(ef);
   REACH("success path");
